@@ -49,6 +49,15 @@ def main():
         rc, out = sh('/venv/bin/python -m pytest -q -p no:cacheprovider --timeout=900 2>&1 | tail -3', cwd=wt, env=env, timeout=7200)
         res['suite_with_change'] = out.strip().splitlines()[-1] if out.strip() else ''
         res['suite_seconds'] = round(time.time() - t0)
+    else:
+        # re-evaluation after a check was changed: keep the suite result of the earlier evaluation of the same patch
+        try:
+            prev = json.load(open(os.path.join(dst, 'result.json')))
+            for k in ('suite_with_change', 'suite_seconds', 'suite_note'):
+                if k in prev:
+                    res[k] = prev[k]
+        except Exception:
+            pass
     props = [p for p in props if not p.startswith('--')]
     outdir = '/tmp/vtout/' + name
     os.makedirs(outdir, exist_ok=True)
